@@ -408,7 +408,7 @@ SeededInvalid(p) ==
   LET S == SeqRange(p.items) IN
   \/ p.err # "none"
   \/ Len(p.routes) = 0
-  \/ \E x \in S : x.f \notin BlankTolerant /\ (x.v \in InvalidVC \/ x.v2 \in InvalidVC)
+  \/ \E x \in S : x.f \notin BlankTolerant /\ (x.v \in InvalidVC \/ (x.v2 \in InvalidVC /\ x.f # "vars.item"))   \* a var may be empty
   \/ \E x \in S : FT[x.f].kind \in StrictKinds /\ (x.v = "bad" \/ (x.v2 = "bad" /\ ~FT[x.f].pair))
   \/ (/\ HasItem(S, 0, "pull_api", 1) /\ ~HasItem(S, 0, "pull_api.auth_token", 1)
       /\ \/ ~\E r \in DOMAIN p.routes : RouteHas(S, r, "r.pull")
